@@ -70,6 +70,12 @@ theorem inv_step {s s' : State} {a : Action} (hi : Inv s) (h : step .reconnectFi
         · exact ⟨hi.noticedOld, hsub, hi.sendsFresh⟩
         · exact ⟨hi.noticedOld, hsub, hi.sendsFresh⟩
     · cases h
+  | graceDone j =>
+    simp only [step] at h
+    split at h
+    · cases h
+      exact ⟨hi.noticedOld, hi.inboxLe, hi.sendsFresh⟩
+    · cases h
   | send id =>
     simp only [step, Option.some.injEq] at h; subst h
     refine ⟨hi.noticedOld, hi.inboxLe, ?_⟩
@@ -90,5 +96,15 @@ theorem inv_runFrom : ∀ (acts : List Action) (s s' : State), Inv s →
     · cases h
     · rename_i s1 hs1
       exact inv_runFrom as s1 s' (inv_step hi hs1) h
+
+/-- a pending close notification can always be processed, and processing it switches the client —
+whatever other `onPush` handlers are still waiting in `GraceClose` -/
+theorem recv_reconnect_switches {s : State} {i g : Nat} (h : s.inbox[i]? = some (g, .reconnect)) :
+    ∃ s', step .reconnectFirst s (.recv i) = some s' ∧ s'.gen = s.gen + 1 ∧ g ∈ s'.noticed ∧
+      s'.handlers = s.handlers ++ [s.gen] ∧ s'.sends = s.sends := by
+  have hs : step .reconnectFirst s (.recv i) =
+      some (onPush .reconnectFirst { s with inbox := s.inbox.eraseIdx i } g .reconnect) := by
+    simp only [step, h]
+  exact ⟨_, hs, by simp [onPush], by simp [onPush], by simp [onPush], by simp [onPush]⟩
 
 end Tars.AdapterPush
